@@ -244,6 +244,20 @@ def given_weights_integral(prog: Program, rep, RID: str, classes: List[str]):
                 if "solution_weights_superset" in t and "round(" in t and "weight_type" in t:
                     hit = st
         if hit is None:
+            # the same rejection in another shape (an explicit loop that raises at the first offending weight, nested ifs): canonical sites
+            from rules import val as _val
+            for s_ in _val.sites_in(init):
+                txt = s_["test"] + " " + str(s_.get("loop") or "")
+                if "solution_weights_superset" in txt and "round(" in s_["test"] and "weight_type" in s_["test"] and s_["exc"] == "ValueError":
+                    fs = s_["_ctx"]
+                    if B.implies(B.mk_and([fs, B.parse_pol(s_["_test"], s_["_pol"])]), B.parse(ast.parse("self.weight_type == int", mode="eval").body)) or \
+                            re.search(r"(?<!not \()EQ0\[int - (self\.)?weight_type\]", s_["test"]):
+                        hit = s_
+                        break
+            if hit is not None:
+                rep.ok(RID, key, "a non-integral superset is rejected with ValueError when weight_type is int", init.loc(hit["_node"]))
+                continue
+        if hit is None:
             rep.violation(RID, key, f"{cname}.get_solution publishes round(solution_weights_superset[i]) for integer weights while the given-weights encoder uses the "
                           "values unchanged, and the constructor accepts a non-integral superset: the model reports solved with weights that do not belong to its own "
                           "constraints (flow 5 'explained' by [2, 2] for superset [2.5, 2.5])", init.loc())
